@@ -58,6 +58,14 @@ type xUnit struct {
 	// StrMaps: a map with string keys is the list of its insertions in order (m[k] = v appends (k, v); a later binding of
 	// a key overrides an earlier one for any reader of the list); lookups, len and iteration stay outside the subset
 	StrMaps bool
+	// LoopBody: the statement slice is part of the body of a `for { }` loop that is not translated itself: the slice
+	// falls through (Next outs), leaves the loop (break: Return (inl (inl outs))), starts the next round (continue:
+	// Return (inl (inr outs))) or returns from the function (Return (inr results))
+	LoopBody bool
+	// NilIsEmpty: slice variables for which the unit claims "nil exactly when empty" (an invariant of the surrounding code,
+	// stated in the unit's documentation): v == nil / v != nil is len(v) == 0 / != 0. Any other comparison of a slice with
+	// nil is rejected (the subset does not tell nil from empty)
+	NilIsEmpty []string
 	// Deep: the statement slice From..To is looked for in nested statement lists as well (it must be unique)
 	Deep bool
 	// Methods: pure methods without arguments of values of the subset (e.String()) that the code calls: each becomes a
@@ -127,6 +135,7 @@ type xl struct {
 	// state mode
 	xpkg       *xPkg
 	ld         *xLoader
+	inRecord   int // computing the type / zero value of a record member
 	units      []xUnit
 	ptrParam   map[types.Object]bool // pointer parameters: in/out values
 	ptrOrder   []*types.Var
@@ -145,7 +154,7 @@ type xl struct {
 
 // identifiers the generated text uses itself; a Go variable of such a name gets a trailing underscore
 var xReserved = strings.Fields(`ctl Next Return Panic bindc go_call wrapU wrapS go_len go_nth go_in_range go_slice
- go_slice_ok go_bytes_eqb go_be_u16 go_be_u32 go_be_u64 go_emit_u8 go_emit_u16 go_emit_u32 go_emit_u64 go_emit_bytes go_range go_count go_map_get go_map_set go_make go_iter rd fuel inl inr go_atomic_cas32 go_atomic_add32 go_search go_search_ok Some None go_f32_to_f64 go_bytes_ltb go_sort_by go_count_down a__ b__ go_loop go_copy go_deliver go_smap_put
+ go_slice_ok go_bytes_eqb go_be_u16 go_be_u32 go_be_u64 go_emit_u8 go_emit_u16 go_emit_u32 go_emit_u64 go_emit_bytes go_range go_count go_map_get go_map_set go_make go_iter rd fuel inl inr go_atomic_cas32 go_atomic_add32 go_search go_search_ok Some None go_f32_to_f64 go_bytes_ltb go_sort_by go_count_down a__ b__ go_loop go_copy go_deliver go_smap_put go_arm go_tag
  andb orb negb implb true false tt nil cons list unit bool Z N nat fst snd pair Bool eqb
  fun let in if then else match with end as return forall exists fix cofix Type Prop Set struct where at using for IF
  Definition Fixpoint Record Lemma Theorem out st`)
@@ -274,7 +283,7 @@ func (x *xl) coqType(n ast.Node, t types.Type) string {
 		if _, _, ok := xIntType(m.Key()); ok {
 			return "(list (Z * " + x.coqType(n, m.Elem()) + "))"
 		}
-		if x.unit != nil && x.unit.StrMaps && xIsBytes(m.Key()) {
+		if xIsBytes(m.Key()) && (x.inRecord > 0 || (x.unit != nil && x.unit.StrMaps)) { // always as a record member; as a variable only with StrMaps
 			return "(list ((list N) * " + x.coqType(n, m.Elem()) + "))"
 		}
 	}
@@ -293,7 +302,7 @@ func (x *xl) record(n ast.Node, nm *types.Named) string {
 		x.records[name] = nm
 		st := nm.Underlying().(*types.Struct)
 		for _, f := range x.recFields(st) { // field types first (nested records are emitted before their user)
-			x.coqType(n, f.Type())
+			x.memberType(n, f.Type())
 		}
 		*x.recOrd = append(*x.recOrd, name)
 	}
@@ -304,6 +313,8 @@ func (x *xl) record(n ast.Node, nm *types.Named) string {
 // another type - a map with string keys, a channel - is left out; any access to it is rejected)
 func (x *xl) recFields(st *types.Struct) []*types.Var {
 	var fs []*types.Var
+	x.inRecord++
+	defer func() { x.inRecord-- }()
 	for i := 0; i < st.NumFields(); i++ {
 		if x.translatable(st.Field(i).Type()) {
 			fs = append(fs, st.Field(i))
@@ -339,6 +350,29 @@ func (x *xl) structVar(e ast.Expr) (*types.Var, *types.Var) {
 	return nil, nil
 }
 
+// outside: e has a known type that is outside the subset
+func (x *xl) outside(e ast.Expr) bool {
+	t := x.info.TypeOf(e)
+	if id, ok := e.(*ast.Ident); ok && t == nil {
+		if o := x.info.ObjectOf(id); o != nil {
+			t = o.Type()
+		}
+	}
+	return t != nil && t != types.Typ[types.Invalid] && !x.translatable(t)
+}
+
+// memberType / memberZero: type and zero value of a record member (a map with string keys is a member of every record)
+func (x *xl) memberType(n ast.Node, t types.Type) string {
+	x.inRecord++
+	defer func() { x.inRecord-- }()
+	return x.coqType(n, t)
+}
+func (x *xl) memberZero(n ast.Node, t types.Type) string {
+	x.inRecord++
+	defer func() { x.inRecord-- }()
+	return x.zero(n, t)
+}
+
 // translatable: does the subset have values of type t?
 func (x *xl) translatable(t types.Type) (ok bool) {
 	defer func() {
@@ -372,12 +406,15 @@ func (x *xl) zero(n ast.Node, t types.Type) string {
 	if s, ok := t.Underlying().(*types.Slice); ok {
 		return "(@nil " + x.coqType(n, s.Elem()) + ")"
 	}
+	if m, ok := t.Underlying().(*types.Map); ok && xIsBytes(m.Key()) && (x.inRecord > 0 || x.unit.StrMaps) { // nil map: no insertions
+		return "(@nil ((list N) * " + x.coqType(n, m.Elem()) + "))"
+	}
 	if nm, ok := t.(*types.Named); ok {
 		if st, ok := nm.Underlying().(*types.Struct); ok {
 			r := x.record(n, nm)
 			var fs []string
 			for _, f := range x.recFields(st) {
-				fs = append(fs, x.zero(n, f.Type()))
+				fs = append(fs, x.memberZero(n, f.Type()))
 			}
 			return "(Build_" + r + " " + strings.Join(fs, " ") + ")"
 		}
@@ -851,6 +888,29 @@ func (x *xl) binary(e *ast.BinaryExpr, g *xGuards) string {
 	return x.arith(e, a, b, g)
 }
 
+// nilIsEmpty: e compares a slice variable listed in the unit's NilIsEmpty with nil
+func (x *xl) nilIsEmpty(e *ast.BinaryExpr) bool {
+	v := e.X
+	if x.info.Types[e.X].IsNil() {
+		v = e.Y
+	} else if !x.info.Types[e.Y].IsNil() {
+		return false
+	}
+	id, ok := v.(*ast.Ident)
+	if !ok {
+		return false
+	}
+	if _, isSlice := x.typeOf(id).Underlying().(*types.Slice); !isSlice {
+		return false
+	}
+	for _, n := range x.unit.NilIsEmpty {
+		if n == id.Name {
+			return true
+		}
+	}
+	return false
+}
+
 // compare: a op b for operands of type t
 func (x *xl) compare(e *ast.BinaryExpr, t types.Type, a, b string) string {
 	var r string
@@ -889,6 +949,13 @@ func (x *xl) compare(e *ast.BinaryExpr, t types.Type, a, b string) string {
 			x.fail(e, "errors can only be compared with nil")
 		}
 		r = "(Bool.eqb " + a + " " + b + ")"
+	case (e.Op == token.EQL || e.Op == token.NEQ) && x.nilIsEmpty(e):
+		v := e.X
+		if x.info.Types[e.X].IsNil() {
+			v = e.Y
+		}
+		var g0 xGuards
+		r = "((go_len " + x.expr(v, &g0) + ") =? 0)"
 	case !xIsBytes(t) && (e.Op == token.EQL || e.Op == token.NEQ) && (x.info.Types[e.Y].IsNil() || x.info.Types[e.X].IsNil()):
 		x.fail(e, "comparison of a %s with nil is outside the subset", t)
 	default:
@@ -947,6 +1014,9 @@ func (x *xl) call(e *ast.CallExpr, g *xGuards) string {
 	if f, ok := x.unit.Funcs[x.src(e.Fun)]; ok { // a declared pure function: a function parameter
 		as := []string{f.Name}
 		for _, a := range e.Args {
+			if t := x.info.TypeOf(a); t != nil && !x.translatable(t) { // an argument outside the subset (a context): the parameter stands for the call with it
+				continue
+			}
 			as = append(as, x.expr(a, g))
 		}
 		return "(" + strings.Join(as, " ") + ")"
@@ -1086,6 +1156,12 @@ func (x *xl) composite(e *ast.CompositeLit, g *xGuards) string {
 	vals := map[string]string{}
 	for i, el := range e.Elts { // evaluated in source order
 		if kv, ok := el.(*ast.KeyValueExpr); ok {
+			if id, isId := kv.Value.(*ast.Ident); isId && x.unit.StrMaps { // a map with string keys handed to a member: the list of its insertions so far
+				if m, isMap := x.typeOf(id).Underlying().(*types.Map); isMap && xIsBytes(m.Key()) {
+					vals[kv.Key.(*ast.Ident).Name] = x.varName(id)
+					continue
+				}
+			}
 			vals[kv.Key.(*ast.Ident).Name] = x.expr(kv.Value, g)
 		} else {
 			vals[st.Field(i).Name()] = x.expr(el, g)
@@ -1097,7 +1173,7 @@ func (x *xl) composite(e *ast.CompositeLit, g *xGuards) string {
 		have[f.Name()] = true
 		v, ok := vals[f.Name()]
 		if !ok {
-			v = x.zero(e, f.Type())
+			v = x.memberZero(e, f.Type())
 		}
 		fs = append(fs, "\n      "+r+"_"+f.Name()+" := "+v)
 	}
@@ -1272,6 +1348,9 @@ func (x *xl) assigned(ss []ast.Stmt) []*types.Var {
 	lo, hi := ss[0].Pos(), ss[len(ss)-1].End()
 	set := map[*types.Var]bool{}
 	mark := func(e ast.Expr) {
+		if _, isId := e.(*ast.Ident); isId && x.outside(e) { // a variable outside the subset carries no value of the translation
+			return
+		}
 		if v := x.lvalue(e); v != nil && !(lo <= v.Pos() && v.Pos() < hi) {
 			set[v] = true
 		}
@@ -1621,6 +1700,8 @@ func (x *xl) stmt(s ast.Stmt, rest func() string, d int) string {
 		term, _, bind := x.state(s, vs)
 		return xGuarded(g, "bindc (if "+c+xInd(d+1)+"then "+x.block(thn, "Next "+term, d+2)+
 			xInd(d+1)+"else "+x.block(els, "Next "+term, d+2)+")"+xInd(d)+"("+bind+xInd(d)+rest()+")")
+	case *ast.SelectStmt:
+		return x.selectStmt(s, rest, d)
 	case *ast.SwitchStmt:
 		return x.switchStmt(s, rest, d)
 	case *ast.RangeStmt:
@@ -1632,9 +1713,68 @@ func (x *xl) stmt(s ast.Stmt, rest func() string, d int) string {
 	return ""
 }
 
+// selectStmt (writer mode): every communication the select offers is an emission - a send `ch <- v` is the primitive
+// declared under the name "chan<-", a receive `<-f(args)` the primitive declared for f - and which clause runs is the
+// environment's choice: the oracle declared under the name "select" (index of the clause; any other value: the last one).
+func (x *xl) selectStmt(s *ast.SelectStmt, rest func() string, d int) string {
+	sel, ok := x.unit.Oracles["select"]
+	if !ok || x.unit.Writer == nil {
+		x.fail(s, "select is in the subset only in writer mode with the choice declared as the oracle \"select\"")
+	}
+	var g xGuards
+	var emits []string
+	var bodies [][]ast.Stmt
+	var all []ast.Stmt
+	for _, c := range s.Body.List {
+		cc := c.(*ast.CommClause)
+		switch comm := cc.Comm.(type) {
+		case nil: // default
+		case *ast.SendStmt:
+			p, found := x.unit.Writer.Prims["chan<-"]
+			if !found {
+				x.fail(comm, "send in a select: no primitive \"chan<-\" declared")
+			}
+			emits = append(emits, "("+p.Coq+")")
+		case *ast.ExprStmt:
+			u, isU := comm.X.(*ast.UnaryExpr)
+			if !isU || u.Op != token.ARROW {
+				x.fail(comm, "communication %s in a select is outside the subset", x.src(comm))
+			}
+			_, prim, isPrim := x.writerCall(u.X, &g)
+			if !isPrim || prim == "" {
+				x.fail(comm, "receive from %s: not a declared primitive", x.src(u.X))
+			}
+			emits = append(emits, prim)
+		default:
+			x.fail(cc, "communication %s in a select is outside the subset", x.src(cc.Comm))
+		}
+		bodies = append(bodies, cc.Body)
+		all = append(all, cc.Body...)
+	}
+	if len(bodies) == 0 {
+		x.fail(s, "empty select")
+	}
+	vs := x.assigned(all)
+	term, _, bind := x.state(s, vs)
+	t := x.block(bodies[len(bodies)-1], "Next "+term, d+2)
+	for i := len(bodies) - 2; i >= 0; i-- {
+		t = fmt.Sprintf("if (%s =? %d)%sthen %s%selse %s", sel.Name, i, xInd(d+1), x.block(bodies[i], "Next "+term, d+2), xInd(d+1), t)
+	}
+	em := ""
+	if len(emits) > 0 {
+		em = "let out := out ++ " + strings.Join(emits, " ++ ") + " in" + xInd(d)
+	}
+	return xGuarded(g, em+"bindc ("+t+")"+xInd(d)+"("+bind+xInd(d)+rest()+")")
+}
+
 func (x *xl) assign(s *ast.AssignStmt, rest func() string, d int) string {
 	var g xGuards
 	// writer call: err = CALL, err := CALL, _ = CALL, and _, err = CALL for a primitive that also returns a count
+	if len(s.Lhs) == 2 && len(s.Rhs) == 1 && x.outside(s.Lhs[0]) && x.outside(s.Lhs[1]) { // a, b = PRIM(..) with results outside the subset: only the emission
+		if _, prim, ok := x.writerCall(s.Rhs[0], &g); ok && prim != "" {
+			return x.effect("", prim, "_", g, rest(), d)
+		}
+	}
 	if (len(s.Lhs) == 1 || (len(s.Lhs) == 2 && x.src(s.Lhs[0]) == "_")) && len(s.Rhs) == 1 {
 		if callee, prim, ok := x.writerCall(s.Rhs[0], &g); ok {
 			if len(s.Lhs) == 2 && prim == "" {
@@ -1677,8 +1817,10 @@ func (x *xl) assign(s *ast.AssignStmt, rest func() string, d int) string {
 		}
 	}
 	if len(s.Rhs) == 1 && len(s.Lhs) == 2 && s.Tok == token.DEFINE { // v, ok := e.(T) with the test e.(T) declared as an oracle (bool): ok is bound, v is not a value of the subset
-		if ta, isTA := s.Rhs[0].(*ast.TypeAssertExpr); isTA {
-			if _, isO := x.unit.Oracles[x.src(ta)]; !isO {
+		ta := s.Rhs[0]
+		_, isTA := ta.(*ast.TypeAssertExpr)
+		if _, isO := x.unit.Oracles[x.src(ta)]; isTA || isO { // also v, ok := f() with f() an oracle and v outside the subset
+			if !isO {
 				x.fail(s, "type assertion %s (only as a declared oracle)", x.src(ta))
 			}
 			okv := x.lvalue(s.Lhs[1])
